@@ -200,8 +200,8 @@ def gen_cases(ctx):
                     add("atom.is_si", ["is_si", a])
                 if rng.random() < 0.05:
                     add("atom.invert_power", ["invert_power", a])
-    # scaling grid
-    full = not ctx.quick()
+    # scaling grid: complete (every ordered prefix pair x every unit x the 7 powers) in both tiers
+    full = True
     if full:
         for u in un:
             for w in POWER7:
@@ -310,12 +310,12 @@ def gen_cases(ctx):
     # exhaustive small scope: every string over a small alphabet (matcher vs Python's re on all of them)
     import itertools
     small = list("mVsk^-+12*/ \n") if ctx.quick() else list("mVskol^-+120*/ \nuµ")
-    maxlen = 3 if ctx.quick() else 4
+    maxlen = 4
     for n in range(0, maxlen + 1):
         for tup in itertools.product(small, repeat=n):
             s = "".join(tup)
             for op in ("is_atomic", "is_compound", "split", "split_compound", "invert_power", "sanitizer"):
-                if n == maxlen and not ctx.quick() and op in ("invert_power", "sanitizer"):
+                if n == maxlen and op in ("invert_power", "sanitizer"):
                     continue
                 add("exhaustive." + op, [op, s])
     # sanitizer-heavy strings
@@ -365,8 +365,8 @@ def correspondence(ctx):
                     "quick: two full 21x21 slices + 3000 samples); random mixed pairs; compounds of 2-4 atoms; atoms "
                     "with power texts of 1-4 digits, malformed powers, trailing newline/blank; scaling with powers "
                     "up to 99 (factor kept inside the float range); sequences of 2-7 atoms with blanks and damage "
-                    "through split_compound/is_compound; list form of scalable; EVERY string of length <= 3 over a "
-                    "13-character alphabet (thorough: length <= 4 over 19 characters) through is_atomic/is_compound/"
+                    "through split_compound/is_compound; list form of scalable; EVERY string of length <= 4 over a "
+                    "13-character alphabet (thorough: 19 characters) through is_atomic/is_compound/"
                     "split/split_compound/invert_power/sanitizer; random "
                     "strings over the unit alphabet; sanitizer strings. non-trivial = result is an error, True, a "
                     "non-empty prefix/power, a factor != 1 or a changed string; distinct by canonical JSON of the case",
@@ -376,6 +376,46 @@ def correspondence(ctx):
 
 # ---------------------------------------------------------------------------------------
 # property oracle on the implementation (independent of the model)
+
+
+def _fresh():
+    """reload nixio.util.units: module-level state (caches, memo tables) starts empty"""
+    import importlib
+    from nixio.util import units as U
+    importlib.reload(U)
+
+
+def _history_for(prev, c, budget=4000):
+    """`c` fails after the cases `prev` ran in this process but not on a freshly loaded module: find a short
+    history (ending in c) that fails from a fresh module. Single predecessors first (most recent, then the ones
+    sharing a component with c), then a bisected prefix."""
+    def fails(hist):
+        return check_case(["history", hist + [c]]) is not None
+    key = set(x for x in c[1:] if isinstance(x, str) and x)
+    recent = list(reversed(prev[-600:]))
+    related = [p for p in reversed(prev[:-600]) if key & set(x for x in p[1:] if isinstance(x, str))]
+    tried = 0
+    for p in recent + related:
+        if tried >= budget:
+            break
+        tried += 1
+        if fails([p]):
+            return [p]
+    # bisect the shortest prefix after which c fails, then shrink it from the front
+    lo, hi = 0, len(prev)
+    if not fails(prev):
+        return None
+    while lo < hi:
+        mid = (lo + hi) // 2
+        if fails(prev[:mid]):
+            hi = mid
+        else:
+            lo = mid + 1
+    hist = prev[:lo]
+    for k in (1, 2, 4, 8, 16, 64, 256):
+        if k < len(hist) and fails(hist[-k:]):
+            return hist[-k:]
+    return hist
 
 
 def check_case(case):
@@ -428,6 +468,16 @@ def check_case(case):
             if not U.is_compound(s) or not U.is_si(s):
                 return Failure("product/quotient of atomic units not recognised as compound", case, False, True,
                                "units.is_compound")
+        elif kind == "history":
+            # an operation history in one fresh interpreter state of nixio.util.units (module-level state such as
+            # caches is reset first); the property must hold for every step
+            _fresh()
+            for sub in case[1]:
+                f = check_case(sub)
+                if f is not None:
+                    return Failure(f.what + " (after the preceding calls of this history, starting from a freshly "
+                                   "loaded nixio.util.units)", case, f.observed, f.required, f.site)
+            return None
         elif kind == "sanitize":
             s = case[1]
             t = U.sanitizer(s)
@@ -492,12 +542,12 @@ def oracle(ctx, broken, hints):
             for w in POWERS:
                 cases.append(["atom", p, u, w])
     full = broken or not ctx.quick()
-    if full:
-        for u in un:
-            for w in POWER7:
-                for p1 in optpre:
-                    for p2 in optpre:
-                        cases.append(["ratio", p1, p2, u, w])
+    if True:
+        # complete grid in both tiers, visited in a seeded random order (state kept between calls - caches,
+        # memo tables - is then met with a different history on every seed)
+        grid = [["ratio", p1, p2, u, w] for u in un for w in POWER7 for p1 in optpre for p2 in optpre]
+        rng.shuffle(grid)
+        cases += grid
     else:
         # every prefix pair at least once, on a random unit/power each
         for p1 in optpre:
@@ -562,15 +612,30 @@ def oracle(ctx, broken, hints):
         cases.append(["sanitize", "".join(rng.choice(["m", "u", " ", "µ", "μ", "V", "mu", "m"]) for _ in range(n))])
     failures = []
     seen = set()
-    for c in cases:
+    histories = 0
+    _fresh()
+    for idx, c in enumerate(cases):
         f = check_case(c)
         if f is not None:
-            key = (f.what, core.canon(c))
+            # does the failure depend on what ran before in this process (module-level state)? Then the failing
+            # input is an operation history from a freshly loaded module, not the last call alone.
+            _fresh()
+            if check_case(c) is None:
+                histories += 1
+                if histories > 3:
+                    continue
+                hist = _history_for(cases[:idx], c)
+                f = check_case(["history", hist + [c]]) if hist is not None else None
+                _fresh()
+                if f is None:
+                    continue
+            key = (f.what, core.canon(f.input))
             if key not in seen:
                 seen.add(key)
                 failures.append(f)
     failures.sort(key=lambda f: len(core.canon(f.input)))
-    return {"evaluations": len(cases), "failures": failures, "full_grid": bool(full)}
+    return {"evaluations": len(cases), "failures": failures, "full_grid": bool(full),
+            "history_dependent_failures": histories}
 
 
 def matches_known(entry, failure):
